@@ -654,7 +654,9 @@ func (a *Assembler) AssembleWithContext(netFlow gopacket.Flow, t *layers.TCP, ac
 		}
 		return
 	}
+	verifYield("conn.lock", conn)
 	conn.mu.Lock()
+	defer verifYield("conn.unlock", conn)
 	defer conn.mu.Unlock()
 	if half.lastSeen.Before(timestamp) {
 		half.lastSeen = timestamp
@@ -1271,6 +1273,7 @@ func (a *Assembler) FlushWithOptions(opt FlushOptions) (flushed, closed int) {
 	flushes := 0
 	for _, conn := range conns {
 		remove := false
+		verifYield("conn.lock", conn)
 		conn.mu.Lock()
 		for _, half := range []*halfconnection{&conn.s2c, &conn.c2s} {
 			flushed, closed := a.flushClose(conn, half, opt.T, opt.TC)
@@ -1285,6 +1288,7 @@ func (a *Assembler) FlushWithOptions(opt FlushOptions) (flushed, closed int) {
 			remove = true
 		}
 		conn.mu.Unlock()
+		verifYield("conn.unlock", conn)
 		if remove {
 			a.connPool.remove(conn)
 		}
@@ -1325,6 +1329,7 @@ func (a *Assembler) FlushAll() (closed int) {
 	conns := a.connPool.connections()
 	closed = len(conns)
 	for _, conn := range conns {
+		verifYield("conn.lock", conn)
 		conn.mu.Lock()
 		for _, half := range []*halfconnection{&conn.s2c, &conn.c2s} {
 			for !half.closed {
@@ -1335,6 +1340,7 @@ func (a *Assembler) FlushAll() (closed int) {
 			}
 		}
 		conn.mu.Unlock()
+		verifYield("conn.unlock", conn)
 	}
 	return
 }
